@@ -8,7 +8,10 @@ from . import descr
 from .run import replay
 
 
-def _fails(prop, ops, vclass, budget):
+SHADOW = True      # set by shrink(): the oracle configuration of the run being minimised
+
+
+def _fails(prop, ops, vclass, budget, shadow=True):
     if budget[0] <= 0:
         return False
     budget[0] -= 1
@@ -17,7 +20,7 @@ def _fails(prop, ops, vclass, budget):
         # PyFVTool would otherwise carry over from the previous candidate and a
         # shrunk trace might fail only because of them)
         A.reset()
-        r = replay(prop, ops)
+        r = replay(prop, ops, shadow=SHADOW)
     except Exception:
         return False
     return r["vclass"] == vclass
@@ -123,7 +126,9 @@ def simplify_ops(prop, ops, vclass, budget):
     return ops
 
 
-def shrink(prop, ops, vclass, max_exec=400):
+def shrink(prop, ops, vclass, max_exec=400, shadow=True):
+    global SHADOW
+    SHADOW = bool(shadow)
     budget = [max_exec]
     ops = [dict(o) for o in ops]
     for o in ops:
